@@ -191,6 +191,63 @@ def nontrivial_key(beh):
     return None
 
 
+def P(kind, n, ns, equil, exp, work, c0, c1, k0, k1):
+    return {"kind": kind, "n": n, "ns": ns, "equil": equil, "exp": exp, "dec": False, "work": work, "c0": c0, "c1": c1, "k0": k0, "k1": k1}
+
+
+TRACE_PARAMS = [P("fixed", 1, 1, 0, 1, False, 1, 1, 2, 2), P("cmove", 4, 1, 0, 1, True, 0, 4, 1, 1), P("cmove", 3, 1, 0, 1, True, 3, 0, 2, 2),
+                P("cstage", 2, 2, 0, 1, False, 0, 4, 1, 1), P("cstage", 3, 3, 0, 1, False, 0, 3, 2, 2), P("kmove", 2, 1, 0, 1, True, 1, 1, 0, 2),
+                P("kmove", 4, 1, 0, 2, True, 1, 1, 1, 5), P("kmove", 3, 1, 0, 1, False, 0, 0, 3, 0), P("kstage", 2, 2, 0, 1, False, 1, 1, 0, 2),
+                P("kstage", 3, 2, 1, 1, False, 1, 1, 0, 2), P("kstage", 3, 1, 2, 2, False, 0, 0, 1, 3), P("kstage", 2, 3, 0, 2, False, 0, 0, 0, 9)]
+
+
+def record_traces(ctx, nruns, nsteps):
+    """Seeded random executions of the real restraint; one event per specification action with the observed state."""
+    rng = random.Random(ctx.seed + 606)
+    events = []
+    d = vlib.Drv()
+    try:
+        for ri in range(nruns):
+            p = TRACE_PARAMS[ri % len(TRACE_PARAMS)]
+            ks = p["n"] * p["n"] * p["ns"]
+            r = Runner(d, p)
+            events.append({"a": "Reset", "p": p})
+            x, runs, first = 0, 1, True
+            for k in range(nsteps):
+                u = rng.random()
+                if first:
+                    a = "First"
+                elif u < 0.1 and runs < 10:
+                    a = "NewRun"
+                elif u < 0.2 and runs < 10:
+                    a = "Restart"
+                else:
+                    a = "Step"
+                if a in ("First", "Step"):
+                    x = rng.choice([-1, 0, 2, 3])
+                else:
+                    runs += 1
+                got = r.act(a, x)
+                if got.get("op") == "died":
+                    ctx.violation("crash", "restraint %s died at action %d" % (json.dumps(p), k), {"p": p})
+                    break
+                first = False
+                hc = p["kind"] in ("cmove", "cstage") and got["cen"] is not None
+                hk = p["kind"] in ("kmove", "kstage") and got["k"] is not None
+                hs = p["kind"] in ("cstage", "kstage") and got["stage"] is not None
+                hw = bool(p["work"]) and got["work"] is not None
+                events.append({"a": a, "x": x, "it": got["it"], "e": vlib.lat(got["E"], 2 * ks), "f": vlib.lat(got["F"], ks),
+                               "hc": hc, "cen": vlib.lat(got["cen"], 1) if hc else 0,
+                               "hk": hk, "k": vlib.lat(got["k"], ks) if hk else 0,
+                               "hs": hs, "stage": got["stage"] if hs else 0,
+                               "hw": hw, "work": vlib.lat(got["work"], 2 * ks) if hw else 0})
+                if a in ("NewRun", "Restart"):
+                    ctx.nontriv(["trace", ri, k])
+    finally:
+        d.close()
+    return events
+
+
 def run(ctx):
     ctx.rule = ("behaviours = First/Step/NewRun/Restart sequences over 3 lattice values for 12 schedules (fixed, continuous and staged moving centre, "
                 "continuous and staged force constant with lambdaExponent 1/2 and equilibration, accumulated work); non-trivial = a run boundary or restart inside the schedule; distinct by (params, actions)")
@@ -231,6 +288,14 @@ def run(ctx):
             ctx.nontriv(k)
     vlib.replay_parallel(ctx, behs, replay_chunk, on_result(ctx, "bfs"), "bfs")
     vlib.replay_parallel(ctx, sb, replay_chunk, on_result(ctx, "simulation"), "simulation")
+    validate_recorded(ctx)
+
+
+def validate_recorded(ctx):
+    ev = record_traces(ctx, 36 if ctx.quick() else 400, 14)
+    r = vlib.validate_trace(ctx, "RestraintTrace", "RestraintTrace.cfg", ev, "recorded restraint executions", nexec=sum(1 for e in ev if e["a"] == "Reset"))
+    # the named deviations met by accepted recorded executions are only applicability marks here; they are reported by the replay
+    # side, where the real code's value is compared with the property's
 
 
 def replay(ctx, path):
